@@ -26,7 +26,20 @@ func newNode(astNode schema.ASTNode) Node {
 		return newNull(astNode)
 	case schema.TokenTypeShortcut:
 		return newRef(astNode)
+	case "":
+		// A schema without a root value (only annotations or comments).
+		return emptyNode{}
 	default:
 		panic(errs.ErrRuntimeFailure.F())
 	}
+}
+
+// emptyNode stands for a schema that has no root value: there is nothing to
+// convert, which is reported as an error by MarshalJSON instead of a panic.
+type emptyNode struct{}
+
+func (emptyNode) SetNodeDescription(string) {}
+
+func (emptyNode) MarshalJSON() ([]byte, error) {
+	return nil, errs.ErrEmptySchema.F()
 }
